@@ -785,18 +785,26 @@ impl St {
                     }
                 })
             }
+            // `rreadall R [PREFIX]`: read_to_end into a vector that already holds PREFIX (a frame header, the
+            // previous entry); the answer is what was appended
             "rreadall" => {
-                need(a, 1)?;
+                if a.is_empty() || a.len() > 2 {
+                    return Err(Bad::Line);
+                }
                 let id = parse_id(a[0], 'R')?;
+                let prefix = if a.len() == 2 { parse_bytes(a[1])? } else { Vec::new() };
                 with_handle(&mut self.readers, &id, |h| {
-                    let mut buf = Vec::new();
+                    let mut buf = prefix.clone();
                     let r = match h {
                         RK::S(r) => r.read_to_end(&mut buf),
                         #[cfg(any(feature = "rt-async-std", feature = "rt-tokio"))]
                         RK::A(r) => rt::block_on(async { r.read_to_end(&mut buf).await }),
                     };
                     match r {
-                        Ok(_) => format!("ok {}", hex_tok(&buf)),
+                        Ok(_) if buf.len() >= prefix.len() && buf[..prefix.len()] == prefix[..] => {
+                            format!("ok {}", hex_tok(&buf[prefix.len()..]))
+                        }
+                        Ok(_) => "err prefix-clobbered".to_string(),
                         Err(e) => stdio_err(&e),
                     }
                 })
